@@ -39,6 +39,7 @@ const (
 	ReqMergeVec    = 19
 	ReqEnum        = 20
 	ReqBuilder     = 21
+	ReqDvBuild     = 22
 )
 
 var Plugin = &zap.ZapPlugin{}
